@@ -347,6 +347,8 @@ class Evaluator:
                 return res
             a = self._text_number(a) if isinstance(a, str) else a
             b = self._text_number(b) if isinstance(b, str) else b
+        if op == '-' and isinstance(a, dt.datetime) and isinstance(b, dt.datetime):
+            return a - b          # a number of days; only comparisons give it a meaning here
         if op in '+-*/':
             x, y = to_num(a), to_num(b)
             if op == '+':
@@ -365,6 +367,9 @@ class Evaluator:
         return self.compare(op, a, b)
 
     def compare(self, op, a, b):
+        a = a / dt.timedelta(days=1) if isinstance(a, dt.timedelta) else a
+        b = b / dt.timedelta(days=1) if isinstance(b, dt.timedelta) else b
+
         def kind(v):
             if v is BLANK:
                 return 'blank'
@@ -485,6 +490,8 @@ def _iferror(ev, a, sh, at):
             if any(isinstance(x, Err) or (isinstance(x, str) and x in ERROR_TEXTS) for x in items):
                 # element-wise (dynamic arrays) or whole-value fallback: the statement speaks of one value
                 raise NoOpinion('IFERROR over an area that holds an error value')
+        if isinstance(v, float) and (v != v or abs(v) == float('inf')):
+            raise XlError('#NUM!')      # a number too large for a cell is the error value #NUM!
         return v
     except XlError as e:
         if getattr(e, 'origin_depth', None) is not None and e.origin_depth > getattr(ev, 'depth', 0) + 1:
@@ -1227,6 +1234,10 @@ def evaluate_once(env, sheet, addr, choices=None, **kw):
         v = ev.cell(sheet, r, c)
         if isinstance(v, Area):
             raise NoOpinion('area result')
+        if isinstance(v, dt.timedelta) or (isinstance(v, float) and (v != v or abs(v) == float('inf'))):
+            # what a cell SHOWS for a difference of dates or for an overflowed product is outside the statements; inside a
+            # comparison (days) and inside IFERROR (an error value) these values have a meaning, see compare() and IFERROR
+            raise NoOpinion('a difference of dates / an overflowed number as the value of a cell')
     except XlError as e:
         v = Err(e.kind)
     LAST['scale'] = ev.maxabs
